@@ -41,6 +41,14 @@ Proof. destruct v; try reflexivity; try discriminate. Qed.
 Lemma nullish_js v : core_value v = true -> js_nullish (to_js v) = c_nullish v.
 Proof. destruct v; try reflexivity; try discriminate. Qed.
 
+Lemma bstr_eqb_refl' x : bstr_eqb x x = true.
+Proof. induction x as [|a x IH]; [reflexivity|]. cbn. rewrite N.eqb_refl. exact IH. Qed.
+Lemma assoc_s_aset {A} k (v : A) (l : list (bstr * A)) : assoc_s k (aset l k v) = Some v.
+Proof.
+  induction l as [|[k' x] l IH]; cbn [aset assoc_s]. rewrite bstr_eqb_refl'. reflexivity.
+  destruct (bstr_eqb k k') eqn:Ek; cbn [assoc_s]; rewrite ?Ek, ?bstr_eqb_refl'; [reflexivity|exact IH].
+Qed.
+
 #[local] Arguments assoc_s {A} k l : simpl never.
 
 (* ---- the relation between the Soy scope and the JavaScript environment ---- *)
@@ -197,21 +205,32 @@ Section Bridge.
 Variable cf : cfg.
 
 (* the action returns v and leaves the scope as it was *)
-Definition mok (m : M value) (st : mstate) (v : value) : Prop := exists st', m st = (Ok v, st') /\ ctx st' = ctx st.
+(* what an expression of the subset leaves untouched: the scope, the autoescape mode and the writer *)
+Definition pres (st st' : mstate) : Prop :=
+  ctx st' = ctx st /\ mode st' = mode st /\ out st' = out st /\ bufs st' = bufs st
+  /\ calls_left st' = calls_left st /\ bytes_left st' = bytes_left st.
+Lemma pres_refl st : pres st st. Proof. repeat split. Qed.
+Lemma pres_trans a c d : pres a c -> pres c d -> pres a d.
+Proof. unfold pres. intros (A1 & A2 & A3 & A4 & A5 & A6) (B1 & B2 & B3 & B4 & B5 & B6). repeat split; congruence. Qed.
+Lemma pres_set_cur st p : pres st (set_cur st p). Proof. repeat split. Qed.
+Lemma pres_bump st : pres st (bump_unbound st). Proof. repeat split. Qed.
+Lemma pres_ctx a c : pres a c -> ctx c = ctx a. Proof. intro H; exact (proj1 H). Qed.
+
+Definition mok (m : M value) (st : mstate) (v : value) : Prop := exists st', m st = (Ok v, st') /\ pres st st'.
 
 Lemma mok_bind (m : M value) (f : value -> M value) st x v :
   mok m st x -> (forall st1, ctx st1 = ctx st -> mok (f x) st1 v) -> mok (mbind m f) st v.
 Proof.
-  intros (st1 & E1 & C1) Hf. destruct (Hf st1 C1) as (st2 & E2 & C2).
-  exists st2. unfold mbind. rewrite E1. split; [exact E2|congruence].
+  intros (st1 & E1 & C1) Hf. destruct (Hf st1 (pres_ctx _ _ C1)) as (st2 & E2 & C2).
+  exists st2. unfold mbind. rewrite E1. split; [exact E2|eapply pres_trans; eauto].
 Qed.
 Lemma mok_ret st v : mok (ret v) st v.
-Proof. exists st. split; reflexivity. Qed.
+Proof. exists st. split; [reflexivity|apply pres_refl]. Qed.
 
 Lemma mok_eval w e st v : mok (w e) st v -> mok (eval w e) st v.
 Proof.
   intros (st1 & E1 & C1). unfold mok, eval, mbind, get, modify, ret. rewrite E1.
-  eexists. split; [reflexivity|]. cbn. exact C1.
+  eexists. split; [reflexivity|]. eapply pres_trans; [exact C1|apply pres_set_cur].
 Qed.
 Lemma mok_evaldef w e st v : v <> VUndef -> mok (w e) st v -> mok (evaldef w e) st v.
 Proof.
@@ -274,7 +293,8 @@ Qed.
 
 Lemma walk_S f n st v : mok (walk_node cf (walk cf f) n) (set_cur st (pos_of n)) v -> mok (walk cf (S f) n) st v.
 Proof.
-  intros (st' & E & C). exists st'. cbn [walk]. unfold walk_body, mbind, modify. split; [exact E|]. rewrite C. reflexivity.
+  intros (st' & E & C). exists st'. cbn [walk]. unfold walk_body, mbind, modify. split; [exact E|].
+  eapply pres_trans; [apply pres_set_cur|exact C].
 Qed.
 
 Lemma core_small z : core_value (VInt z) = true -> small z = true.
@@ -300,7 +320,7 @@ Proof.
     destruct (bstr_eqb key n_ij).
     + destruct (c_ij cf) as [iv|]; [|discriminate]. apply mok_bind with (x := iv). apply mok_ret. intros s1 _. apply mok_dataref; exact E.
     + apply mok_bind with (x := match env key with Some v0 => v0 | None => VUndef end).
-      * unfold mok, m_lookup, env. rewrite Hc1. destruct (sc_lookup (ctx st0) key); eexists; (split; [reflexivity|cbn; exact Hc1]).
+      * unfold mok, m_lookup, env. rewrite Hc1. destruct (sc_lookup (ctx st0) key); eexists; (split; [reflexivity|first [apply pres_refl|apply pres_bump]]).
       * intros s1 _. apply mok_dataref; exact E.
   - (* neg *)
     cbn [walk_node]. destruct (ceval (c_ij cf) env a) as [[| | |z| | | |]|] eqn:Ea; try discriminate.
@@ -369,7 +389,7 @@ Theorem gen_expr_correct_partial cf sc je st e fuel v :
   (cdepth e < fuel)%nat ->
   env_rel sc (c_ij cf) (sc_lookup (ctx st)) je ->
   ceval (c_ij cf) (sc_lookup (ctx st)) e = Some v ->
-  (exists st', walk cf fuel (cnode e) st = (Ok v, st') /\ ctx st' = ctx st)
+  (exists st', walk cf fuel (cnode e) st = (Ok v, st') /\ pres st st')
   /\ js_eval je (cgen sc e) = Ok (to_js v).
 Proof.
   intros Hf ER E. split.
@@ -383,4 +403,85 @@ Lemma bstr_eqb_true : forall x y, bstr_eqb x y = true -> x = y.
 Proof.
   induction x as [|a x IH]; destruct y as [|c y]; cbn; intro H; try discriminate; auto.
   apply andb_prop in H. destruct H as [H1 H2]. apply N.eqb_eq in H1. subst. f_equal. auto.
+Qed.
+
+Lemma bstr_eqb_refl_iff x : True <-> bstr_eqb x x = true.
+Proof. split; [intros _|auto]. induction x as [|a x IH]; [reflexivity|]. cbn. rewrite N.eqb_refl. exact IH. Qed.
+
+(* ------------------------------------------------------------------ *)
+(* the print stage: {print e} with autoescaping off *)
+Lemma tostring_value_string v : printable_scalar v = true ->
+  exists s, value_string v = Ok s /\ js_tostring (to_js v) = Some s.
+Proof.
+  destruct v; try discriminate; intros _.
+  - exists s_null. split; reflexivity.
+  - destruct x; eexists; split; reflexivity.
+  - exists (dec_of_Z z). split; reflexivity.
+  - exists s. split; reflexivity.
+Qed.
+
+
+(* the Go side: with autoescaping off, no obligatory directives and a writer
+   that does not fail, {print e} writes exactly String() of the value *)
+Lemma interp_print cf e fuel st v s :
+  c_oblig cf = [] -> mode st = 2 -> bufs st = [] -> calls_left st = None -> bytes_left st = None ->
+  (forall k x, sc_lookup (ctx st) k = Some x -> core_value x = true) ->
+  (forall x, c_ij cf = Some x -> core_value x = true) ->
+  (S (cdepth e) < fuel)%nat ->
+  ceval (c_ij cf) (sc_lookup (ctx st)) e = Some v -> v <> VUndef -> value_string v = Ok s ->
+  exists st', walk cf fuel (NPrint 0 (cnode e) []) st = (Ok VUndef, st')
+              /\ out st' = s :: out st /\ ctx st' = ctx st /\ mode st' = mode st.
+Proof.
+  intros Hob Hm Hb Hcl Hbl Hce Hci Hf E Hv Hs.
+  destruct fuel as [|f]; [lia|]. cbn [walk]. unfold walk_body. unfold mbind at 1. cbn [modify].
+  set (st1 := set_cur st (pos_of (NPrint 0 (cnode e) []))).
+  assert (P1 : pres st st1) by apply pres_set_cur.
+  destruct (interp_ceval cf st Hce Hci e f st1 v ltac:(lia) (pres_ctx _ _ P1) E) as (st2 & E2 & P2).
+  pose proof (pres_trans _ _ _ P1 P2) as (C & Mo & Ou & Bu & Cl & Bl).
+  cbn [walk_node]. unfold mbind at 1. rewrite E2.
+  assert (Hrest : (ds <-- print_dirs cf (walk cf f) [];;;
+                   s0 <-- lift (value_string v);;;
+                   st3 <-- get;;;
+                   ws <-- lift (print_writes (mode st3) ds s0);;; _ <-- write_all ws;;; ret VUndef) st2
+                  = (Ok VUndef, set_out st2 (s :: out st2) None None)).
+  { cbn [print_dirs]. rewrite Hob. cbn [map]. unfold mbind at 1. cbn [ret]. unfold mbind at 1. rewrite Hs. cbn [lift].
+    unfold mbind at 1. cbn [get]. unfold mbind at 1. rewrite Mo, Hm.
+    unfold print_writes. cbn [apply_directives bind]. change (negb (2 =? 2)) with false. cbn [lift].
+    unfold mbind at 1. cbn [write_all]. unfold mbind at 1. unfold write. rewrite Bu, Hb, Cl, Hcl, Bl, Hbl. cbn [ret]. unfold mbind. cbn [ret]. reflexivity. }
+  destruct v; try congruence; (eexists; split; [exact Hrest|]); cbn; repeat split; congruence.
+Qed.
+
+(* the JavaScript side: the statement appends ToString of the value *)
+Lemma js_print sc ij env je e v s buf old :
+  env_rel sc ij env je -> ceval ij env e = Some v -> printable_scalar v = true -> value_string v = Ok s ->
+  assoc_s buf (je_vars je) = Some (JStr old) ->
+  exists je', js_append je buf (cgen sc e) = Ok (s, je') /\ assoc_s buf (je_vars je') = Some (JStr (old ++ s)) /\ je_data je' = je_data je.
+Proof.
+  intros ER E Hp Hs Hb. destruct (cgen_correct sc ij env je ER e v E) as [Hj _].
+  destruct (tostring_value_string v Hp) as (s' & Hs' & Ht). assert (s' = s) by congruence. subst s'.
+  unfold js_append. rewrite Hj. cbn [bind]. rewrite Ht, Hb. eexists. split; [reflexivity|]. cbn [je_vars je_data]. split; [|reflexivity].
+  apply assoc_s_aset.
+Qed.
+
+(* gen_correct_partial_print: one {print e} of the subset under autoescape off: the bytes the Go renderer
+   writes are the text the generated statement appends to the output buffer *)
+Theorem gen_correct_partial_print cf sc je st e fuel v buf old :
+  c_oblig cf = [] -> mode st = 2 -> bufs st = [] -> calls_left st = None -> bytes_left st = None ->
+  (S (cdepth e) < fuel)%nat ->
+  env_rel sc (c_ij cf) (sc_lookup (ctx st)) je ->
+  ceval (c_ij cf) (sc_lookup (ctx st)) e = Some v -> printable_scalar v = true ->
+  assoc_s buf (je_vars je) = Some (JStr old) ->
+  exists s,
+    (exists st', walk cf fuel (NPrint 0 (cnode e) []) st = (Ok VUndef, st')
+                 /\ out st' = s :: out st /\ ctx st' = ctx st /\ mode st' = mode st)
+    /\ (exists je', js_append je buf (cgen sc e) = Ok (s, je')
+                    /\ assoc_s buf (je_vars je') = Some (JStr (old ++ s)) /\ je_data je' = je_data je).
+Proof.
+  intros Hob Hm Hb Hcl Hbl Hf ER E Hp Hbuf.
+  destruct (tostring_value_string v Hp) as (s & Hs & _). exists s. split.
+  - apply (interp_print cf e fuel st v s); auto.
+    + intros k x Hk. pose proof (er_core _ _ _ _ ER k) as H. unfold env_val in H. rewrite Hk in H. exact H.
+    + intros x Hx. exact (er_core_ij _ _ _ _ ER x Hx).
+    + destruct v; try discriminate; discriminate.
+  - apply (js_print sc (c_ij cf) (sc_lookup (ctx st)) je e v s buf old); auto.
 Qed.
